@@ -456,6 +456,7 @@ func moveOutFile(w *bytes.Buffer, param *syntax.StructMember,
 		}
 		return err
 	}
+	verifEvent("OutMoved", "from", filePath, "to", outPath)
 
 	// Generate the relative path from files/ to outs/
 	relPath, err := filepath.Rel(filepath.Dir(filePath), outPath)
@@ -473,6 +474,7 @@ func moveOutFile(w *bytes.Buffer, param *syntax.StructMember,
 		}
 		return err
 	}
+	verifEvent("OutLinked", "from", filePath, "to", outPath)
 
 	if b, err := json.Marshal(outPath); err != nil {
 		if _, err := w.Write(value); err != nil {
